@@ -23,6 +23,9 @@ def handle (line : String) : String :=
     | "coll3" => coll3Line j
     | "collcyc" => collcycLine j
     | "cdcn" => cdcnLine j
+    | "rt" => rtLine j
+    | "rtseq" => rtseqLine j
+    | "rtcyc" => rtcycLine j
     | k => verdict false true "bad-kind" k
 
 partial def loop (h : IO.FS.Stream) (out : IO.FS.Stream) : IO Unit := do
